@@ -1,5 +1,5 @@
 import XzVerif.Model.LazyDec
-import XzVerif.Proofs.Ring
+import XzVerif.Proofs.RingD
 import Mathlib.Tactic.Ring
 
 /-! helper lemmas for Proofs/LazyDec.lean -/
@@ -153,48 +153,81 @@ theorem copyMatch_toList (dist : Nat) : ∀ (n : Nat) (h : Hist),
 
 /-! ### the simulation relation -/
 
-/-- the lazy state `l` and the batch state `d` have decoded the same operations; `r` bytes were delivered -/
-structure Sim (p : Props) (size : Option Nat) (cap : Nat) (l : LSt) (d : DecSt) (r : Nat) : Prop where
+/-- the lazy state `l` and the batch state `d` have decoded the same operations; `r` bytes were delivered.
+    `startB` = output length at the start of the segment, `off` = output produced before this ring existed
+    (an xz block's predecessors), `d.h.dictStart` = output length at the last dictionary reset -/
+structure Sim (p : Props) (size : Option Nat) (cap startB off : Nat) (l : LSt) (d : DecSt) (r : Nat) : Prop where
   s : l.s = d.s
   tbl : l.tbl = d.tbl
   rd : l.rd = d.rd
   p : l.p = p
-  start : l.start = 0
+  start : l.start + d.h.dictStart = startB
   size : l.size = size
-  rel : l.dict.Rel ⟨d.h.out.data.toList, r⟩ cap
-  ds : d.h.dictStart = 0
+  offle : off ≤ d.h.dictStart
+  dsle : d.h.dictStart ≤ d.h.out.size
+  rel : l.dict.RelB ⟨d.h.out.data.toList.drop off, r⟩ cap (d.h.dictStart - off)
   cap : d.h.cap = cap
 
-variable {p : Props} {size : Option Nat} {cap : Nat}
+variable {p : Props} {size : Option Nat} {cap startB off : Nat}
 
-theorem Sim.head {l : LSt} {d : DecSt} {r : Nat} (h : Sim p size cap l d r) : l.dict.head = d.h.out.size := by
-  rw [h.rel.head, length_toList]
+theorem Sim.wlen {l : LSt} {d : DecSt} {r : Nat} (_h : Sim p size cap startB off l d r) :
+    (d.h.out.data.toList.drop off).length = d.h.out.size - off := by
+  rw [List.length_drop, length_toList]
 
-theorem Sim.pos {l : LSt} {d : DecSt} {r : Nat} (h : Sim p size cap l d r) : d.h.pos = d.h.out.size := by
-  rw [Hist.pos, h.ds]; rfl
+theorem Sim.head {l : LSt} {d : DecSt} {r : Nat} (h : Sim p size cap startB off l d r) :
+    l.dict.head = d.h.out.size - d.h.dictStart := by
+  have h1 := h.rel.head
+  have h2 := h.offle
+  have h3 := h.dsle
+  simp only [h.wlen] at h1
+  omega
 
-theorem Sim.byteAt {l : LSt} {d : DecSt} {r : Nat} (h : Sim p size cap l d r) (dist : Nat) :
+theorem Sim.rle {l : LSt} {d : DecSt} {r : Nat} (h : Sim p size cap startB off l d r) : r ≤ d.h.out.size - off := by
+  have := h.rel.buf.rle
+  simp only [h.wlen] at this
+  exact this
+
+theorem Sim.byteAt {l : LSt} {d : DecSt} {r : Nat} (h : Sim p size cap startB off l d r) (dist : Nat) :
     (l.dict.byteAt dist).toNat = d.h.byteAt dist := by
-  rw [ddict_byteAt l.dict _ cap h.rel dist, Hist.byteAt, Hist.dictLen, h.pos, h.cap]
-  simp only [length_toList]
-  split_ifs
-  · rw [get!_toList]
+  have h2 := h.offle
+  have h3 := h.dsle
+  rw [relB_byteAt l.dict _ cap _ h.rel dist, Hist.byteAt, Hist.dictLen, Hist.pos, h.cap]
+  simp only [h.wlen]
+  rw [show d.h.out.size - off - (d.h.dictStart - off) = d.h.out.size - d.h.dictStart by omega]
+  split_ifs with hc
+  · rw [getElem!_drop, show off + (d.h.out.size - off - dist) = d.h.out.size - dist by omega, get!_toList]
   · rfl
 
-theorem Sim.ctx {l : LSt} {d : DecSt} {r : Nat} (h : Sim p size cap l d r) : l.ctx = mkCtx p d.s d.h := by
-  simp only [LSt.ctx, mkCtx, h.byteAt, h.head, h.pos, h.s, h.p]
+theorem Sim.ctx {l : LSt} {d : DecSt} {r : Nat} (h : Sim p size cap startB off l d r) : l.ctx = mkCtx p d.s d.h := by
+  simp only [LSt.ctx, mkCtx, h.byteAt, h.head, Hist.pos, h.s, h.p]
 
-theorem Sim.decompressed {l : LSt} {d : DecSt} {r : Nat} (h : Sim p size cap l d r) :
-    l.decompressed = d.h.out.size := by
-  rw [LSt.decompressed, h.head, h.start]; rfl
+theorem Sim.decompressed {l : LSt} {d : DecSt} {r : Nat} (h : Sim p size cap startB off l d r) :
+    l.decompressed = d.h.out.size - startB := by
+  have h1 := h.start
+  have h3 := h.dsle
+  rw [LSt.decompressed, h.head]
+  omega
 
-theorem Sim.available {l : LSt} {d : DecSt} {r : Nat} (h : Sim p size cap l d r) :
-    l.dict.buf.available = cap - (d.h.out.size - r) := by
-  rw [available_eq _ _ _ h.rel.buf, length_toList]
+theorem Sim.available {l : LSt} {d : DecSt} {r : Nat} (h : Sim p size cap startB off l d r) :
+    l.dict.buf.available = cap - (d.h.out.size - off - r) := by
+  rw [available_eq _ _ _ h.rel.buf, h.wlen]
 
-theorem Sim.dictLen {l : LSt} {d : DecSt} {r : Nat} (h : Sim p size cap l d r) :
-    d.h.dictLen = min d.h.out.size cap := by
-  rw [Hist.dictLen, h.pos, h.cap]
+theorem Sim.dictLen {l : LSt} {d : DecSt} {r : Nat} (h : Sim p size cap startB off l d r) :
+    d.h.dictLen = min (d.h.out.size - d.h.dictStart) cap := by
+  rw [Hist.dictLen, Hist.pos, h.cap]
+
+theorem copyMatchList_drop (dist off : Nat) : ∀ (n : Nat) (W : List UInt8), 1 ≤ dist → dist + off ≤ W.length →
+    copyMatchList (W.drop off) dist n = (copyMatchList W dist n).drop off := by
+  intro n
+  induction n with
+  | zero => intro W _ _; rfl
+  | succ n ih =>
+    intro W h1 h2
+    rw [copyMatchList, copyMatchList, ← ih _ h1 (by rw [List.length_append, List.length_singleton]; omega)]
+    congr 1
+    rw [List.drop_append_of_le_length (by omega), List.length_drop, getElem!_drop]
+    congr 3
+    omega
 
 theorem copyMatchList_prefix (dist : Nat) : ∀ (n : Nat) (W : List UInt8), W <+: copyMatchList W dist n := by
   intro n
@@ -210,9 +243,9 @@ def lAfter (l : LSt) (o : RawOp) (tbl' : Tbl) (rd' : Dec) : LSt := { l with s :=
 def dAfter (d : DecSt) (o : RawOp) (tbl' : Tbl) (rd' : Dec) : DecSt :=
   { s := d.s.apply o, tbl := tbl', rd := rd', h := d.h, ops := d.ops.push o }
 
-theorem Sim.after {l : LSt} {d : DecSt} {r : Nat} (h : Sim p size cap l d r) (o : RawOp) (tbl' : Tbl) (rd' : Dec) :
-    Sim p size cap (lAfter l o tbl' rd') (dAfter d o tbl' rd') r :=
-  ⟨by simp only [lAfter, dAfter, h.s], rfl, rfl, h.p, h.start, h.size, h.rel, h.ds, h.cap⟩
+theorem Sim.after {l : LSt} {d : DecSt} {r : Nat} (h : Sim p size cap startB off l d r) (o : RawOp) (tbl' : Tbl) (rd' : Dec) :
+    Sim p size cap startB off (lAfter l o tbl' rd') (dAfter d o tbl' rd') r :=
+  ⟨by simp only [lAfter, dAfter, h.s], rfl, rfl, h.p, h.start, h.size, h.offle, h.dsle, h.rel, h.cap⟩
 
 /-- the effect of a decoded operation (not the end marker) on the batch state -/
 def bstep (d : DecSt) : RawOp → StepRes
@@ -262,12 +295,6 @@ theorem decStep_some (d : DecSt) (o : RawOp) (tbl' : Tbl) (rd' : Dec)
   | rep g len => rfl
   | shortRep => rfl
 
-theorem ddict_writeByte (d : DDict) (a : Abs) (cap : Nat) (h : d.Rel a cap) (c : UInt8)
-    (hlt : a.W.length - a.r < cap) : ∃ d', d.writeByte c = some d' ∧ d'.Rel ⟨a.W ++ [c], a.r⟩ cap := by
-  obtain ⟨b', hb1, hb2⟩ := (writeByte_rel d.buf a cap h.buf c).1 hlt
-  refine ⟨{ buf := b', head := d.head + 1 }, by simp only [DDict.writeByte, hb1], ⟨hb2, ?_, h.pos⟩⟩
-  simp only [h.head, List.length_append, List.length_singleton]
-
 /-- `apply` for a match-like operation -/
 def wmRes (l : LSt) (dist len : Nat) : Except Err LSt :=
   match l.dict.writeMatch dist len with
@@ -283,50 +310,61 @@ theorem apply_shortRep (l : LSt) : apply l .shortRep = wmRes l (l.s.r0 + 1) 1 :=
 
 /-- the effect of a decoded operation on the ring is its effect on the batch history, as long as the ring has
     room for a maximal match -/
-theorem apply_sim {l : LSt} {d : DecSt} {r : Nat} (h : Sim p size cap l d r) (o : RawOp) (hlen : OpLenOk o)
+theorem apply_sim {l : LSt} {d : DecSt} {r : Nat} (h : Sim p size cap startB off l d r) (o : RawOp) (hlen : OpLenOk o)
     (hav : 273 ≤ l.dict.buf.available) :
-    (∃ d' l', bstep d o = .cont d' ∧ apply l o = .ok l' ∧ Sim p size cap l' d' r ∧ l'.eos = l.eos ∧
+    (∃ d' l', bstep d o = .cont d' ∧ apply l o = .ok l' ∧ Sim p size cap startB off l' d' r ∧ l'.eos = l.eos ∧
       d.h.out.data.toList <+: d'.h.out.data.toList ∧ d.h.out.size < d'.h.out.size ∧
-      d'.h.out.size ≤ d.h.out.size + 273 ∧ d'.rd = d.rd) ∨
+      d'.h.out.size ≤ d.h.out.size + 273 ∧ d'.rd = d.rd ∧ l'.rd = l.rd) ∨
     (∃ w, bstep d o = .fail d (.err w) ∧ apply l o = .error .distRange) := by
   have hav' := h.available
-  have hrle := h.rel.buf.rle
-  simp only [length_toList] at hrle
+  have hrle := h.rle
+  have hol := h.offle
+  have hdl := h.dsle
+  have hwl := h.wlen
   have hwm : ∀ dist len, 1 ≤ len → len ≤ 273 →
       (∃ d' l', d.copy dist len = .cont d' ∧
-        wmRes l dist len = Except.ok l' ∧ Sim p size cap l' d' r ∧ l'.eos = l.eos ∧
+        wmRes l dist len = Except.ok l' ∧ Sim p size cap startB off l' d' r ∧ l'.eos = l.eos ∧
         d.h.out.data.toList <+: d'.h.out.data.toList ∧ d.h.out.size < d'.h.out.size ∧
-        d'.h.out.size ≤ d.h.out.size + 273 ∧ d'.rd = d.rd) ∨
+        d'.h.out.size ≤ d.h.out.size + 273 ∧ d'.rd = d.rd ∧ l'.rd = l.rd) ∨
       (∃ w, d.copy dist len = .fail d (.err w) ∧
         wmRes l dist len = Except.error Err.distRange) := by
     intro dist len hl1 hl2
-    obtain ⟨w1, _, _, w4⟩ := ddict_writeMatch l.dict _ cap h.rel dist len
-    simp only [length_toList] at w1 w4
-    by_cases hc : 0 < dist ∧ dist ≤ min d.h.out.size cap
+    obtain ⟨w1, w4⟩ := relB_writeMatch l.dict _ cap _ h.rel dist len
+    simp only [hwl] at w1 w4
+    rw [show d.h.out.size - off - (d.h.dictStart - off) = d.h.out.size - d.h.dictStart by omega] at w1 w4
+    by_cases hc : 0 < dist ∧ dist ≤ min (d.h.out.size - d.h.dictStart) cap
     · left
       obtain ⟨dd, e1, e2⟩ := w4 hc ⟨by omega, hl2⟩ (by omega)
       obtain ⟨c1, c2, c3⟩ := copyMatch_toList dist len d.h
-      refine ⟨{ d with h := d.h.copyMatch dist len }, { l with dict := dd }, ?_, by rw [wmRes, e1], ?_, rfl, ?_, ?_, ?_, rfl⟩
+      have hsz : (d.h.copyMatch dist len).out.size = d.h.out.size + len := by
+        have := congrArg List.length c1
+        rw [copyMatchList_length, length_toList, length_toList] at this
+        exact this
+      refine ⟨{ d with h := d.h.copyMatch dist len }, { l with dict := dd }, ?_, by rw [wmRes, e1], ?_, rfl, ?_, ?_, ?_,
+        rfl, rfl⟩
       · rw [DecSt.copy, if_pos (by rw [h.dictLen]; exact hc)]
-      · refine ⟨h.s, h.tbl, h.rd, h.p, h.start, h.size, ?_, by rw [c2]; exact h.ds, by rw [c3]; exact h.cap⟩
-        simp only [c1]; exact e2
+      · refine ⟨h.s, h.tbl, h.rd, h.p, by simp only [c2]; exact h.start, h.size, by simp only [c2]; exact hol,
+          by simp only [c2, hsz]; omega, ?_, by rw [c3]; exact h.cap⟩
+        simp only [c1, c2]
+        rw [← copyMatchList_drop dist off len _ (by omega) (by rw [length_toList]; omega)]
+        exact e2
       · simp only [c1]; exact copyMatchList_prefix _ _ _
-      · have := congrArg List.length c1
-        rw [copyMatchList_length, length_toList, length_toList] at this
-        simp only; omega
-      · have := congrArg List.length c1
-        rw [copyMatchList_length, length_toList, length_toList] at this
-        simp only; omega
+      · simp only [hsz]; omega
+      · simp only [hsz]; omega
     · right
       refine ⟨"distance out of range", ?_, by rw [wmRes, w1 hc]⟩
       rw [DecSt.copy, if_neg (by rw [h.dictLen]; exact hc)]
   cases o with
   | lit b =>
     left
-    obtain ⟨dd, e1, e2⟩ := ddict_writeByte l.dict _ cap h.rel b.toUInt8 (by simp only [length_toList]; omega)
-    refine ⟨{ d with h := d.h.push b }, { l with dict := dd }, rfl, by simp only [apply, e1], ?_, rfl, ?_, ?_, ?_, rfl⟩
-    · refine ⟨h.s, h.tbl, h.rd, h.p, h.start, h.size, ?_, h.ds, h.cap⟩
-      simp only [push_toList]; exact e2
+    obtain ⟨dd, e1, e2⟩ := relB_writeByte l.dict _ cap _ h.rel b.toUInt8 (by simp only [hwl]; omega)
+    refine ⟨{ d with h := d.h.push b }, { l with dict := dd }, rfl, by simp only [apply, e1], ?_, rfl, ?_, ?_, ?_,
+      rfl, rfl⟩
+    · refine ⟨h.s, h.tbl, h.rd, h.p, h.start, h.size, hol, ?_, ?_, h.cap⟩
+      · simp only [Hist.push, ByteArray.size_push]; omega
+      · simp only [push_toList]
+        rw [List.drop_append_of_le_length (by rw [length_toList]; omega)]
+        exact e2
     · simp only [push_toList]; exact List.prefix_append _ _
     · simp only [Hist.push, ByteArray.size_push]; omega
     · simp only [Hist.push, ByteArray.size_push]; omega
@@ -424,6 +462,63 @@ theorem decSegment_prefix (p : Props) (size : Option Nat) (start : Nat) (snm : B
         · exact List.IsPrefix.trans hs (finish_prefix p snm _)
         · exact List.IsPrefix.trans hs (ih _)
 
+/-! ### the range decoder only consumes input -/
+
+theorem norm_inp_le (d d' : Dec) (h : d.norm = some d') : d'.inp.length ≤ d.inp.length := by
+  unfold Dec.norm at h
+  split_ifs at h
+  · split at h
+    · cases h
+    · rename_i x r hx
+      cases h
+      rw [hx]; simp
+  · cases h; exact Nat.le_refl _
+
+theorem step_inp_le (d : Dec) (q : Option Nat) (b : Bool) (d' : Dec) (h : d.step q = some (b, d')) :
+    d'.inp.length ≤ d.inp.length := by
+  unfold Dec.step at h
+  cases q with
+  | some q =>
+    simp only at h
+    split_ifs at h
+    all_goals
+      simp only [Option.map_eq_some_iff, Prod.mk.injEq] at h
+      obtain ⟨x, hx, _, rfl⟩ := h
+      have := norm_inp_le _ _ hx
+      exact this
+  | none =>
+    simp only at h
+    split_ifs at h
+    all_goals
+      simp only [Option.map_eq_some_iff, Prod.mk.injEq] at h
+      obtain ⟨x, hx, _, rfl⟩ := h
+      have := norm_inp_le _ _ hx
+      exact this
+
+theorem decTree_inp_le {α : Type} : ∀ (t : DecTree α) (tbl : Tbl) (rd : Dec) (a : α) (tbl' : Tbl) (rd' : Dec),
+    decTree pm t tbl rd = some (a, tbl', rd') → rd'.inp.length ≤ rd.inp.length := by
+  intro t
+  induction t with
+  | ret a0 =>
+    intro tbl rd a tbl' rd' he
+    simp only [decTree, Option.some.injEq, Prod.mk.injEq] at he
+    rw [he.2.2]
+  | ask q k ih =>
+    intro tbl rd a tbl' rd' he
+    cases q with
+    | adaptive c =>
+      simp only [decTree] at he
+      split at he
+      · cases he
+      · rename_i b d1 hs
+        exact Nat.le_trans (ih _ _ _ _ _ _ he) (step_inp_le _ _ _ _ hs)
+    | direct =>
+      simp only [decTree] at he
+      split at he
+      · cases he
+      · rename_i b d1 hs
+        exact Nat.le_trans (ih _ _ _ _ _ _ he) (step_inp_le _ _ _ _ hs)
+
 /-! ### `tail` against `finish` -/
 
 /-- agreement of an error of the lazy reader with the batch status (under the hypothesis `K`) -/
@@ -431,10 +526,11 @@ def GoodErr (K : Prop) (e : Err) (st : Status) : Prop :=
   (e = .unexpectedEOF ∧ (K → st = .unexpectedEOF)) ∨
   ((e = .dataAfterEOS ∨ e = .size ∨ e = .distRange) ∧ (K → ∃ w, st = .err w))
 
-def TailPost (p : Props) (size : Option Nat) (cap : Nat) (d : DecSt) (r : Nat) : DRes → Prop
+def TailPost (p : Props) (size : Option Nat) (cap startB off : Nat) (l : LSt) (d : DecSt) (r : Nat) : DRes → Prop
   | .more _ => False
-  | .eof l' => l'.eos = true ∧ ∃ d', Sim p size cap l' d' r ∧ d'.h.out = d.h.out ∧
-      (decSegment.finish p false d).status = .eof ∧ (decSegment.finish p false d).d.h.out = d.h.out
+  | .eof l' => l'.eos = true ∧ l'.rd.inp.length ≤ l.rd.inp.length ∧
+      ∃ d', Sim p size cap startB off l' d' r ∧ d'.h = d.h ∧
+      (decSegment.finish p false d).status = .eof ∧ (decSegment.finish p false d).d = d'
   | .err _ e => GoodErr True e (decSegment.finish p false d).status
 
 theorem finish_code0 (p : Props) (d : DecSt) (hc : d.rd.code = 0) :
@@ -450,14 +546,14 @@ theorem finish_ne (p : Props) (d : DecSt) (hc : ¬ d.rd.code = 0) :
   simp only [Bool.false_eq_true, if_false]
   cases decStep p d <;> rfl
 
-theorem tail_spec {l : LSt} {d : DecSt} {r : Nat} (h : Sim p size cap l d r) (he : l.eos = true) :
-    TailPost p size cap d r (tail l) := by
+theorem tail_spec {l : LSt} {d : DecSt} {r : Nat} (h : Sim p size cap startB off l d r) (he : l.eos = true) :
+    TailPost p size cap startB off l d r (tail l) := by
   unfold tail
   rw [h.rd]
   by_cases hc : d.rd.code = 0
   · rw [if_pos hc]
     simp only [TailPost, finish_code0 p d hc]
-    exact ⟨he, d, h, by trivial, by trivial, by trivial⟩
+    exact ⟨he, Nat.le_refl _, d, h, by trivial, by trivial, by trivial⟩
   rw [if_neg hc]
   cases hres : decTree pm (opDec l.ctx) l.tbl l.rd with
   | none =>
@@ -468,15 +564,16 @@ theorem tail_spec {l : LSt} {d : DecSt} {r : Nat} (h : Sim p size cap l d r) (he
     exact Or.inl ⟨rfl, fun _ => rfl⟩
   | some x =>
     obtain ⟨o, tbl', rd'⟩ := x
+    have hle := decTree_inp_le _ _ _ _ _ _ hres
     rw [readOp_some l o tbl' rd' hres]
     rw [h.ctx, h.tbl, h.rd] at hres
     have hd := decStep_some d o tbl' rd' hres
     by_cases hm : isMarker o = true
     · rw [if_pos hm] at hd ⊢
       simp only [TailPost, finish_ne p d hc, hd]
-      refine ⟨he, dAfter d o tbl' rd', ?_, by trivial, by trivial, by trivial⟩
+      refine ⟨he, hle, dAfter d o tbl' rd', ?_, by trivial, by trivial, by trivial⟩
       have := h.after o tbl' rd'
-      exact ⟨this.s, this.tbl, this.rd, this.p, this.start, this.size, this.rel, this.ds, this.cap⟩
+      exact ⟨this.s, this.tbl, this.rd, this.p, this.start, this.size, this.offle, this.dsle, this.rel, this.cap⟩
     · rw [if_neg hm] at hd ⊢
       rcases bstep_cases (dAfter d o tbl' rd') o with ⟨d', e1, _⟩ | ⟨w, e1⟩
       · rw [e1] at hd
@@ -492,13 +589,14 @@ theorem tail_spec {l : LSt} {d : DecSt} {r : Nat} (h : Sim p size cap l d r) (he
 def K (R : SegRes) : Prop := R.status ≠ .err "fuel exhausted"
 
 /-- the batch run `R` passes through the state `d` -/
-def Tracks (p : Props) (size : Option Nat) (R : SegRes) (d : DecSt) : Prop :=
-  K R → ∃ fb, decSegment p size 0 false fb d = R
+def Tracks (p : Props) (size : Option Nat) (startB : Nat) (R : SegRes) (d : DecSt) : Prop :=
+  K R → ∃ fb, decSegment p size startB false fb d = R
 
-def NotDone (size : Option Nat) (d : DecSt) : Prop := ∀ sz, size = some sz → d.h.out.size < sz
+def NotDone (size : Option Nat) (startB : Nat) (d : DecSt) : Prop :=
+  ∀ sz, size = some sz → d.h.out.size - startB < sz
 
-theorem tracks_succ {R : SegRes} {d : DecSt} (ht : Tracks p size R d) (hK : K R) :
-    ∃ fb, decSegment p size 0 false (fb + 1) d = R := by
+theorem tracks_succ {R : SegRes} {d : DecSt} (ht : Tracks p size startB R d) (hK : K R) :
+    ∃ fb, decSegment p size startB false (fb + 1) d = R := by
   obtain ⟨fb, hfb⟩ := ht hK
   cases fb with
   | zero =>
@@ -507,92 +605,97 @@ theorem tracks_succ {R : SegRes} {d : DecSt} (ht : Tracks p size R d) (hK : K R)
     rw [← hfb]; rfl
   | succ fb => exact ⟨fb, hfb⟩
 
-theorem seg_fail {d d' : DecSt} {st : Status} (hnd : NotDone size d) (fb : Nat) (hs : decStep p d = .fail d' st) :
-    decSegment p size 0 false (fb + 1) d = ⟨d', st, false⟩ := by
+theorem seg_fail {d d' : DecSt} {st : Status} (hnd : NotDone size startB d) (fb : Nat)
+    (hs : decStep p d = .fail d' st) :
+    decSegment p size startB false (fb + 1) d = ⟨d', st, false⟩ := by
   rw [decSegment, if_neg, hs]
   intro h0
   have := hnd _ h0
   omega
 
 /-- what the batch loop returns when it meets the end marker in the state `d'` -/
-def markerRes (size : Option Nat) (d' : DecSt) : SegRes :=
+def markerRes (size : Option Nat) (startB : Nat) (d' : DecSt) : SegRes :=
   if d'.rd.code ≠ 0 then ⟨d', .err "data after end of stream marker", true⟩
   else match size with
-    | some sz => if sz ≠ d'.h.out.size then ⟨d', .err "wrong uncompressed size", true⟩ else ⟨d', .eof, true⟩
+    | some sz => if sz ≠ d'.h.out.size - startB then ⟨d', .err "wrong uncompressed size", true⟩ else ⟨d', .eof, true⟩
     | none => ⟨d', .eof, true⟩
 
 /-- how the batch loop goes on after an operation has been applied -/
-def contRes (p : Props) (size : Option Nat) (fb : Nat) (d' : DecSt) : SegRes :=
+def contRes (p : Props) (size : Option Nat) (startB : Nat) (fb : Nat) (d' : DecSt) : SegRes :=
   match size with
-  | none => decSegment p size 0 false fb d'
+  | none => decSegment p size startB false fb d'
   | some sz =>
-    if d'.h.out.size ≥ sz then
-      (if d'.h.out.size > sz then ⟨d', .err "wrong uncompressed size", false⟩ else decSegment.finish p false d')
-    else decSegment p size 0 false fb d'
+    if d'.h.out.size - startB ≥ sz then
+      (if d'.h.out.size - startB > sz then ⟨d', .err "wrong uncompressed size", false⟩
+       else decSegment.finish p false d')
+    else decSegment p size startB false fb d'
 
-theorem seg_marker {d d' : DecSt} (hnd : NotDone size d) (fb : Nat) (hs : decStep p d = .marker d') :
-    decSegment p size 0 false (fb + 1) d = markerRes size d' := by
+theorem seg_marker {d d' : DecSt} (hnd : NotDone size startB d) (fb : Nat) (hs : decStep p d = .marker d') :
+    decSegment p size startB false (fb + 1) d = markerRes size startB d' := by
   rw [decSegment, if_neg, hs]
-  · simp only [Bool.false_eq_true, if_false, Nat.sub_zero, markerRes]
+  · simp only [Bool.false_eq_true, if_false, markerRes]
     cases size <;> rfl
   · intro h0
     have := hnd _ h0
     omega
 
-theorem seg_cont {d d' : DecSt} (hnd : NotDone size d) (fb : Nat) (hs : decStep p d = .cont d') :
-    decSegment p size 0 false (fb + 1) d = contRes p size fb d' := by
+theorem seg_cont {d d' : DecSt} (hnd : NotDone size startB d) (fb : Nat) (hs : decStep p d = .cont d') :
+    decSegment p size startB false (fb + 1) d = contRes p size startB fb d' := by
   rw [decSegment, if_neg, hs]
-  · simp only [Nat.sub_zero, contRes]
+  · simp only [contRes]
     cases size <;> rfl
   · intro h0
     have := hnd _ h0
     omega
 
-def FillPost (p : Props) (size : Option Nat) (cap : Nat) (R : SegRes) (l : LSt) (d : DecSt) (r fuelL : Nat) :
-    DRes → Prop
-  | .more l' => l'.eos = false ∧
+def FillPost (p : Props) (size : Option Nat) (cap startB off : Nat) (R : SegRes) (l : LSt) (d : DecSt)
+    (r fuelL : Nat) : DRes → Prop
+  | .more l' => l'.eos = false ∧ l'.rd.inp.length ≤ l.rd.inp.length ∧
       (l'.dict.buf.available < 273 ∨ l'.dict.buf.available + fuelL ≤ l.dict.buf.available) ∧
-      ∃ d', Sim p size cap l' d' r ∧ NotDone size d' ∧ Tracks p size R d' ∧
+      ∃ d', Sim p size cap startB off l' d' r ∧ NotDone size startB d' ∧ Tracks p size startB R d' ∧
         d.h.out.data.toList <+: d'.h.out.data.toList
-  | .eof l' => l'.eos = true ∧ ∃ d', Sim p size cap l' d' r ∧ d.h.out.data.toList <+: d'.h.out.data.toList ∧
-      (K R → R.status = .eof ∧ R.d.h.out = d'.h.out)
+  | .eof l' => l'.eos = true ∧ l'.rd.inp.length ≤ l.rd.inp.length ∧
+      ∃ d', Sim p size cap startB off l' d' r ∧ d.h.out.data.toList <+: d'.h.out.data.toList ∧
+      (K R → R.status = .eof ∧ R.d = d')
   | .err _ e => GoodErr (K R) e R.status
 
 theorem fillPost_step {R : SegRes} {l l2 : LSt} {d d2 : DecSt} {r fuel : Nat} {res : DRes}
-    (hp : FillPost p size cap R l2 d2 r fuel res) (hpre : d.h.out.data.toList <+: d2.h.out.data.toList)
-    (hav : l2.dict.buf.available + 1 ≤ l.dict.buf.available) : FillPost p size cap R l d r (fuel + 1) res := by
+    (hp : FillPost p size cap startB off R l2 d2 r fuel res) (hpre : d.h.out.data.toList <+: d2.h.out.data.toList)
+    (hav : l2.dict.buf.available + 1 ≤ l.dict.buf.available) (hrd : l2.rd.inp.length ≤ l.rd.inp.length) :
+    FillPost p size cap startB off R l d r (fuel + 1) res := by
   cases res with
   | more l' =>
-    obtain ⟨a1, a2, d', a3, a4, a5, a6⟩ := hp
-    exact ⟨a1, by omega, d', a3, a4, a5, hpre.trans a6⟩
+    obtain ⟨a1, a0, a2, d', a3, a4, a5, a6⟩ := hp
+    exact ⟨a1, by omega, by omega, d', a3, a4, a5, hpre.trans a6⟩
   | eof l' =>
-    obtain ⟨a1, d', a3, a4, a5⟩ := hp
-    exact ⟨a1, d', a3, hpre.trans a4, a5⟩
+    obtain ⟨a1, a0, d', a3, a4, a5⟩ := hp
+    exact ⟨a1, by omega, d', a3, hpre.trans a4, a5⟩
   | err l' e => exact hp
 
-theorem tailPost_fill {R : SegRes} {l : LSt} {d d2 : DecSt} {r fuelL : Nat} {res : DRes}
-    (hp : TailPost p size cap d2 r res) (hpre : d.h.out.data.toList <+: d2.h.out.data.toList)
-    (hR : K R → R = decSegment.finish p false d2) : FillPost p size cap R l d r fuelL res := by
+theorem tailPost_fill {R : SegRes} {l l2 : LSt} {d d2 : DecSt} {r fuelL : Nat} {res : DRes}
+    (hp : TailPost p size cap startB off l2 d2 r res) (hpre : d.h.out.data.toList <+: d2.h.out.data.toList)
+    (hrd : l2.rd.inp.length ≤ l.rd.inp.length)
+    (hR : K R → R = decSegment.finish p false d2) : FillPost p size cap startB off R l d r fuelL res := by
   cases res with
   | more l' => exact hp.elim
   | eof l' =>
-    obtain ⟨a1, d', a2, a3, a4, a5⟩ := hp
-    refine ⟨a1, d', a2, by rw [a3]; exact hpre, fun hK => ?_⟩
-    rw [hR hK, a3]; exact ⟨a4, a5⟩
+    obtain ⟨a1, a0, d', a2, a3, a4, a5⟩ := hp
+    refine ⟨a1, by omega, d', a2, by rw [a3]; exact hpre, fun hK => ?_⟩
+    rw [hR hK]; exact ⟨a4, a5⟩
   | err l' e =>
     rcases hp with ⟨a1, a2⟩ | ⟨a1, a2⟩
     · exact Or.inl ⟨a1, fun hK => by rw [hR hK]; exact a2 trivial⟩
     · exact Or.inr ⟨a1, fun hK => by rw [hR hK]; exact a2 trivial⟩
 
 theorem fill_spec (R : SegRes) : ∀ (fuelL : Nat) (l : LSt) (d : DecSt) (r : Nat),
-    Sim p size cap l d r → NotDone size d → Tracks p size R d → l.eos = false →
-    FillPost p size cap R l d r fuelL (fill fuelL l) := by
+    Sim p size cap startB off l d r → NotDone size startB d → Tracks p size startB R d → l.eos = false →
+    FillPost p size cap startB off R l d r fuelL (fill fuelL l) := by
   intro fuelL
   induction fuelL with
   | zero =>
     intro l d r h hnd ht he
     simp only [fill, FillPost]
-    exact ⟨he, Or.inr (by omega), d, h, hnd, ht, List.prefix_refl _⟩
+    exact ⟨he, Nat.le_refl _, Or.inr (by omega), d, h, hnd, ht, List.prefix_refl _⟩
   | succ fuel ih =>
     intro l d r h hnd ht he
     rw [fill]
@@ -600,7 +703,7 @@ theorem fill_spec (R : SegRes) : ∀ (fuelL : Nat) (l : LSt) (d : DecSt) (r : Na
     swap
     · rw [if_neg hav]
       simp only [FillPost]
-      exact ⟨he, Or.inl (by omega), d, h, hnd, ht, List.prefix_refl _⟩
+      exact ⟨he, Nat.le_refl _, Or.inl (by omega), d, h, hnd, ht, List.prefix_refl _⟩
     rw [if_pos hav]
     cases hres : decTree pm (opDec l.ctx) l.tbl l.rd with
     | none =>
@@ -614,6 +717,7 @@ theorem fill_spec (R : SegRes) : ∀ (fuelL : Nat) (l : LSt) (d : DecSt) (r : Na
     | some x =>
       obtain ⟨o, tbl', rd'⟩ := x
       have hlen := opDec_len _ _ _ _ _ _ hres
+      have hrdle := decTree_inp_le _ _ _ _ _ _ hres
       rw [readOp_some l o tbl' rd' hres]
       rw [h.ctx, h.tbl, h.rd] at hres
       have hd := decStep_some d o tbl' rd' hres
@@ -621,15 +725,17 @@ theorem fill_spec (R : SegRes) : ∀ (fuelL : Nat) (l : LSt) (d : DecSt) (r : Na
       by_cases hm : isMarker o = true
       · rw [if_pos hm] at hd ⊢
         simp only
-        have hsimM : Sim p size cap
+        have hsimM : Sim p size cap startB off
             { ({ lAfter l o tbl' rd' with eosMarker := true } : LSt) with eos := true } (dAfter d o tbl' rd') r :=
-          ⟨hsim.s, hsim.tbl, hsim.rd, hsim.p, hsim.start, hsim.size, hsim.rel, hsim.ds, hsim.cap⟩
+          ⟨hsim.s, hsim.tbl, hsim.rd, hsim.p, hsim.start, hsim.size, hsim.offle, hsim.dsle, hsim.rel, hsim.cap⟩
         have hlmE : ({ ({ lAfter l o tbl' rd' with eosMarker := true } : LSt) with eos := true } : LSt).eos = true := rfl
+        have hlmR : ({ ({ lAfter l o tbl' rd' with eosMarker := true } : LSt) with eos := true } : LSt).rd.inp.length
+            ≤ l.rd.inp.length := hrdle
         generalize ({ ({ lAfter l o tbl' rd' with eosMarker := true } : LSt) with eos := true } : LSt) = lm
-          at hsimM hlmE ⊢
+          at hsimM hlmE hlmR ⊢
         have e1 : (lAfter l o tbl' rd').rd = (dAfter d o tbl' rd').rd := rfl
         rw [e1, hsim.size, hsimM.decompressed]
-        have hK1 : K R → R = markerRes size (dAfter d o tbl' rd') := by
+        have hK1 : K R → R = markerRes size startB (dAfter d o tbl' rd') := by
           intro hK
           obtain ⟨fb, hfb⟩ := tracks_succ ht hK
           rw [← hfb, seg_marker hnd fb hd]
@@ -644,10 +750,10 @@ theorem fill_spec (R : SegRes) : ∀ (fuelL : Nat) (l : LSt) (d : DecSt) (r : Na
           cases size with
           | none =>
             simp only [FillPost]
-            exact ⟨hlmE, _, hsimM, List.prefix_refl _, fun hK => by rw [hK1 hK]; exact ⟨rfl, rfl⟩⟩
+            exact ⟨hlmE, hlmR, _, hsimM, List.prefix_refl _, fun hK => by rw [hK1 hK]; exact ⟨rfl, rfl⟩⟩
           | some sz =>
             simp only at hK1 ⊢
-            by_cases hz : sz ≠ (dAfter d o tbl' rd').h.out.size
+            by_cases hz : sz ≠ (dAfter d o tbl' rd').h.out.size - startB
             · rw [if_pos hz]
               rw [if_pos hz] at hK1
               simp only [FillPost]
@@ -655,42 +761,46 @@ theorem fill_spec (R : SegRes) : ∀ (fuelL : Nat) (l : LSt) (d : DecSt) (r : Na
             · rw [if_neg hz]
               rw [if_neg hz] at hK1
               simp only [FillPost]
-              exact ⟨hlmE, _, hsimM, List.prefix_refl _, fun hK => by rw [hK1 hK]; exact ⟨rfl, rfl⟩⟩
+              exact ⟨hlmE, hlmR, _, hsimM, List.prefix_refl _, fun hK => by rw [hK1 hK]; exact ⟨rfl, rfl⟩⟩
       · rw [if_neg hm] at hd ⊢
         simp only
         have hav1 : 273 ≤ (lAfter l o tbl' rd').dict.buf.available := hav
-        rcases apply_sim hsim o hlen hav1 with ⟨d', l'', b1, b2, b3, b4, b5, b6, b7, b8⟩ | ⟨w, b1, b2⟩
+        rcases apply_sim hsim o hlen hav1 with ⟨d', l'', b1, b2, b3, b4, b5, b6, b7, b8, b9⟩ | ⟨w, b1, b2⟩
         · rw [b1] at hd
           rw [b2]
           simp only
-          have hK1 : K R → ∃ fb, R = contRes p size fb d' := by
+          have hK1 : K R → ∃ fb, R = contRes p size startB fb d' := by
             intro hK
             obtain ⟨fb, hfb⟩ := tracks_succ ht hK
             exact ⟨fb, by rw [← hfb, seg_cont hnd fb hd]⟩
-          have hrle := h.rel.buf.rle
-          simp only [length_toList] at hrle
+          have hrle := h.rle
           have hav0 := h.available
           have hav2 : l''.dict.buf.available + 1 ≤ l.dict.buf.available := by
             rw [b3.available, h.available]
             have : (dAfter d o tbl' rd').h.out.size = d.h.out.size := rfl
+            have := h.offle
+            have := h.dsle
             omega
           have hle : l''.eos = false := by rw [b4]; exact he
           have hpre : d.h.out.data.toList <+: d'.h.out.data.toList := b5
+          have hrd2 : l''.rd.inp.length ≤ l.rd.inp.length := by rw [b9]; exact hrdle
           rw [b3.size]
           cases size with
           | none =>
             simp only
-            have ht' : Tracks p none R d' := by
+            have ht' : Tracks p none startB R d' := by
               intro hK
               obtain ⟨fb, hfb⟩ := hK1 hK
               exact ⟨fb, by rw [hfb]; rfl⟩
-            exact fillPost_step (ih l'' d' r b3 (fun sz hsz => by cases hsz) ht' hle) hpre hav2
+            exact fillPost_step (ih l'' d' r b3 (fun sz hsz => by cases hsz) ht' hle) hpre hav2 hrd2
           | some sz =>
             simp only
-            simp only [LSt.decompressed, b3.head, b3.start, Nat.sub_zero]
-            by_cases hge : d'.h.out.size ≥ sz
+            have hdc := b3.decompressed
+            simp only [LSt.decompressed] at hdc ⊢
+            simp only [hdc]
+            by_cases hge : d'.h.out.size - startB ≥ sz
             · rw [if_pos hge]
-              by_cases hgt : d'.h.out.size > sz
+              by_cases hgt : d'.h.out.size - startB > sz
               · rw [if_pos hgt]
                 simp only [FillPost]
                 refine Or.inr ⟨Or.inr (Or.inl rfl), fun hK => ?_⟩
@@ -699,20 +809,20 @@ theorem fill_spec (R : SegRes) : ∀ (fuelL : Nat) (l : LSt) (d : DecSt) (r : Na
                 simp only [if_pos hge, if_pos hgt]
                 exact ⟨_, rfl⟩
               · rw [if_neg hgt]
-                have hs3 : Sim p (some sz) cap ({ l'' with start := 0, size := some sz, eos := true } : LSt) d' r :=
-                  ⟨b3.s, b3.tbl, b3.rd, b3.p, rfl, rfl, b3.rel, b3.ds, b3.cap⟩
-                refine tailPost_fill (tail_spec hs3 rfl) hpre (fun hK => ?_)
+                have hs3 : Sim p (some sz) cap startB off ({ l'' with size := some sz, eos := true } : LSt) d' r :=
+                  ⟨b3.s, b3.tbl, b3.rd, b3.p, b3.start, rfl, b3.offle, b3.dsle, b3.rel, b3.cap⟩
+                refine tailPost_fill (tail_spec hs3 rfl) hpre hrd2 (fun hK => ?_)
                 obtain ⟨fb, hfb⟩ := hK1 hK
                 rw [hfb, contRes]
                 simp only [if_pos hge, if_neg hgt]
             · rw [if_neg hge]
-              have ht' : Tracks p (some sz) R d' := by
+              have ht' : Tracks p (some sz) startB R d' := by
                 intro hK
                 obtain ⟨fb, hfb⟩ := hK1 hK
                 refine ⟨fb, ?_⟩
                 rw [hfb, contRes]
                 simp only [if_neg hge]
-              refine fillPost_step (ih l'' d' r b3 ?_ ht' hle) hpre hav2
+              refine fillPost_step (ih l'' d' r b3 ?_ ht' hle) hpre hav2 hrd2
               intro sz' hsz'
               cases hsz'
               omega
@@ -725,45 +835,70 @@ theorem fill_spec (R : SegRes) : ∀ (fuelL : Nat) (l : LSt) (d : DecSt) (r : Na
 
 /-! ### `decompress` and the invariant between calls -/
 
-/-- invariant between calls; `D` = everything delivered so far -/
-def GI (p : Props) (size : Option Nat) (cap : Nat) (R : SegRes) (l : LSt) (D : ByteArray) : Prop :=
-  ∃ d, Sim p size cap l d D.size ∧ D.data.toList = d.h.out.data.toList.take D.size ∧
-    (l.eos = false → Tracks p size R d ∧
-      ∀ sz, size = some sz → d.h.out.size < sz ∨ (sz = 0 ∧ d.h.out.size = 0)) ∧
-    (l.eos = true → K R → R.status = .eof ∧ R.d.h.out = d.h.out)
+/-- invariant between calls; `D` = everything this ring has delivered so far, `d` = the batch state reached -/
+def GId (p : Props) (size : Option Nat) (cap startB off : Nat) (R : SegRes) (l : LSt) (D : ByteArray)
+    (d : DecSt) : Prop :=
+  Sim p size cap startB off l d D.size ∧ D.data.toList = (d.h.out.data.toList.drop off).take D.size ∧
+    (l.eos = false → Tracks p size startB R d ∧
+      ∀ sz, size = some sz → d.h.out.size - startB < sz ∨ (sz = 0 ∧ d.h.out.size - startB = 0)) ∧
+    (l.eos = true → K R → R.status = .eof ∧ R.d = d)
 
-def DecPost (p : Props) (size : Option Nat) (cap : Nat) (R : SegRes) (D : ByteArray) : DRes → Prop
-  | .more l' => l'.eos = false ∧ l'.dict.buf.available < 273 ∧ GI p size cap R l' D
-  | .eof l' => l'.eos = true ∧ GI p size cap R l' D
+def GI (p : Props) (size : Option Nat) (cap startB off : Nat) (R : SegRes) (l : LSt) (D : ByteArray) : Prop :=
+  ∃ d, GId p size cap startB off R l D d
+
+theorem GId.congr {R : SegRes} {l : LSt} {D D' : ByteArray} {d : DecSt} (h : GId p size cap startB off R l D d)
+    (he : D'.data.toList = D.data.toList) : GId p size cap startB off R l D' d := by
+  have hs : D'.size = D.size := by rw [← length_toList, he, length_toList]
+  obtain ⟨a, b, c, e⟩ := h
+  exact ⟨by rw [hs]; exact a, by rw [hs, he]; exact b, c, e⟩
+
+def DecPost (p : Props) (size : Option Nat) (cap startB off : Nat) (R : SegRes) (l : LSt) (D : ByteArray) :
+    DRes → Prop
+  | .more l' => l'.eos = false ∧ l'.rd.inp.length ≤ l.rd.inp.length ∧ l'.dict.buf.available < 273 ∧
+      GI p size cap startB off R l' D
+  | .eof l' => l'.eos = true ∧ l'.rd.inp.length ≤ l.rd.inp.length ∧ GI p size cap startB off R l' D
   | .err _ e => GoodErr (K R) e R.status
 
 theorem take_of_prefix {W W' : List UInt8} (h : W <+: W') (n : Nat) (hn : n ≤ W.length) : W'.take n = W.take n := by
   obtain ⟨t, rfl⟩ := h
   exact List.take_append_of_le_length hn
 
-theorem seg_zero {d : DecSt} (fb : Nat) (h0 : size = some d.h.out.size) :
-    decSegment p size 0 false (fb + 1) d = decSegment.finish p false d := by
-  rw [decSegment, if_pos (by simpa using h0)]
+theorem drop_prefix {W W' : List UInt8} (h : W <+: W') (off : Nat) (ho : off ≤ W.length) :
+    W.drop off <+: W'.drop off := by
+  obtain ⟨t, rfl⟩ := h
+  rw [List.drop_append_of_le_length ho]
+  exact List.prefix_append _ _
 
-theorem decompress_spec {R : SegRes} {l : LSt} {D : ByteArray} (hg : GI p size cap R l D) :
-    DecPost p size cap R D (decompress l) := by
+theorem seg_zero {d : DecSt} (fb : Nat) (h0 : size = some (d.h.out.size - startB)) :
+    decSegment p size startB false (fb + 1) d = decSegment.finish p false d := by
+  rw [decSegment, if_pos h0]
+
+theorem decompress_spec {R : SegRes} {l : LSt} {D : ByteArray} (hg : GI p size cap startB off R l D) :
+    DecPost p size cap startB off R l D (decompress l) := by
   obtain ⟨d, hs, hD, h1, h2⟩ := hg
-  have hrle := hs.rel.buf.rle
-  simp only [length_toList] at hrle
+  have hrle := hs.rle
+  have hol := hs.offle
+  have hdl := hs.dsle
   unfold decompress
   by_cases he : l.eos = true
   · rw [if_pos he]
-    exact ⟨he, d, hs, hD, h1, h2⟩
+    exact ⟨he, Nat.le_refl _, d, hs, hD, h1, h2⟩
   rw [if_neg he]
   have he' : l.eos = false := by simpa using he
   obtain ⟨ht, hnd⟩ := h1 he'
-  have hcond : (l.size = some 0 ∧ l.decompressed = 0) ↔ (size = some 0 ∧ d.h.out.size = 0) := by
+  have hcond : (l.size = some 0 ∧ l.decompressed = 0) ↔ (size = some 0 ∧ d.h.out.size - startB = 0) := by
     rw [hs.size, hs.decompressed]
+  have htk : ∀ d' : DecSt, d.h.out.data.toList <+: d'.h.out.data.toList →
+      D.data.toList = (d'.h.out.data.toList.drop off).take D.size := by
+    intro d' hp
+    rw [take_of_prefix (drop_prefix hp off (by rw [length_toList]; omega)) _
+      (by rw [List.length_drop, length_toList]; exact hrle)]
+    exact hD
   by_cases hz' : l.size = some 0 ∧ l.decompressed = 0
   · rw [if_pos hz']
     have hz := hcond.mp hz'
-    have hs3 : Sim p size cap ({ l with eos := true } : LSt) d D.size :=
-      ⟨hs.s, hs.tbl, hs.rd, hs.p, hs.start, hs.size, hs.rel, hs.ds, hs.cap⟩
+    have hs3 : Sim p size cap startB off ({ l with eos := true } : LSt) d D.size :=
+      ⟨hs.s, hs.tbl, hs.rd, hs.p, hs.start, hs.size, hs.offle, hs.dsle, hs.rel, hs.cap⟩
     have hR : K R → R = decSegment.finish p false d := by
       intro hK
       obtain ⟨fb, hfb⟩ := tracks_succ ht hK
@@ -773,13 +908,13 @@ theorem decompress_spec {R : SegRes} {l : LSt} {D : ByteArray} (hg : GI p size c
     | more l' => rw [hres] at this; exact this.elim
     | eof l' =>
       rw [hres] at this
-      obtain ⟨a1, d', a2, a3, a4, a5⟩ := this
+      obtain ⟨a1, a0, d', a2, a3, a4, a5⟩ := this
       simp only [DecPost]
-      refine ⟨a1, d', a2, ?_, ?_, ?_⟩
+      refine ⟨a1, a0, d', a2, ?_, ?_, ?_⟩
       · rw [a3]; exact hD
       · intro hf; rw [a1] at hf; cases hf
       · intro _ hK
-        rw [hR hK, a3]; exact ⟨a4, a5⟩
+        rw [hR hK]; exact ⟨a4, a5⟩
     | err l' e =>
       rw [hres] at this
       simp only [DecPost]
@@ -788,7 +923,7 @@ theorem decompress_spec {R : SegRes} {l : LSt} {D : ByteArray} (hg : GI p size c
       · exact Or.inr ⟨a1, fun hK => by rw [hR hK]; exact a2 trivial⟩
   · rw [if_neg hz']
     have hz := fun hh => hz' (hcond.mpr hh)
-    have hnd' : NotDone size d := by
+    have hnd' : NotDone size startB d := by
       intro sz hsz
       rcases hnd sz hsz with h | ⟨h, h'⟩
       · exact h
@@ -797,127 +932,134 @@ theorem decompress_spec {R : SegRes} {l : LSt} {D : ByteArray} (hg : GI p size c
     cases hres : fill (l.dict.buf.available + 1) l with
     | more l' =>
       rw [hres] at this
-      obtain ⟨a1, a2, d', a3, a4, a5, a6⟩ := this
+      obtain ⟨a1, a0, a2, d', a3, a4, a5, a6⟩ := this
       simp only [DecPost]
-      refine ⟨a1, by omega, d', a3, ?_, fun _ => ⟨a5, fun sz hsz => Or.inl (a4 sz hsz)⟩, ?_⟩
-      · rw [take_of_prefix a6 _ (by rw [length_toList]; exact hrle)]; exact hD
-      · intro hf; rw [a1] at hf; cases hf
+      refine ⟨a1, a0, by omega, d', a3, htk d' a6, fun _ => ⟨a5, fun sz hsz => Or.inl (a4 sz hsz)⟩, ?_⟩
+      intro hf; rw [a1] at hf; cases hf
     | eof l' =>
       rw [hres] at this
-      obtain ⟨a1, d', a3, a4, a5⟩ := this
+      obtain ⟨a1, a0, d', a3, a4, a5⟩ := this
       simp only [DecPost]
-      refine ⟨a1, d', a3, ?_, ?_, fun _ hK => a5 hK⟩
-      · rw [take_of_prefix a4 _ (by rw [length_toList]; exact hrle)]; exact hD
-      · intro hf; rw [a1] at hf; cases hf
+      refine ⟨a1, a0, d', a3, htk d' a4, ?_, fun _ hK => a5 hK⟩
+      intro hf; rw [a1] at hf; cases hf
     | err l' e =>
       rw [hres] at this
       exact this
 
 /-! ### `Read` -/
 
-/-- the delivered bytes are a prefix of the batch output -/
-def Pre (R : SegRes) (X : ByteArray) : Prop := K R → X.data.toList = R.d.h.out.data.toList.take X.size
+/-- the delivered bytes are a prefix of the batch output (behind the first `off` bytes) -/
+def Pre (off : Nat) (R : SegRes) (X : ByteArray) : Prop :=
+  K R → X.data.toList = (R.d.h.out.data.toList.drop off).take X.size
 
-theorem GI.pre {R : SegRes} {l : LSt} {D : ByteArray} (hg : GI p size cap R l D) : Pre R D := by
+theorem GI.pre {R : SegRes} {l : LSt} {D : ByteArray} (hg : GI p size cap startB off R l D) : Pre off R D := by
   intro hK
   obtain ⟨d, hs, hD, h1, h2⟩ := hg
-  have hrle := hs.rel.buf.rle
-  simp only [length_toList] at hrle
+  have hrle := hs.rle
+  have hol := hs.offle
+  have hdl := hs.dsle
   cases he : l.eos with
   | false =>
     obtain ⟨fb, hfb⟩ := (h1 he).1 hK
-    have := decSegment_prefix p size 0 false fb d
+    have := decSegment_prefix p size startB false fb d
     rw [hfb] at this
-    rw [take_of_prefix this _ (by rw [length_toList]; exact hrle)]; exact hD
+    rw [take_of_prefix (drop_prefix this off (by rw [length_toList]; omega)) _
+      (by rw [List.length_drop, length_toList]; exact hrle)]
+    exact hD
   | true =>
     rw [(h2 he hK).2]; exact hD
 
-def StatPost (p : Props) (size : Option Nat) (cap : Nat) (R : SegRes) (l' : LSt) (X : ByteArray) : RStat → Prop
-  | .ok => GI p size cap R l' X
-  | .eof => K R → R.status = .eof ∧ X.data.toList = R.d.h.out.data.toList
+def StatPost (p : Props) (size : Option Nat) (cap startB off : Nat) (R : SegRes) (n0 : Nat) (l' : LSt)
+    (X : ByteArray) : RStat → Prop
+  | .ok => l'.rd.inp.length ≤ n0 ∧ GI p size cap startB off R l' X
+  | .eof => l'.rd.inp.length ≤ n0 ∧ l'.eos = true ∧
+      ∃ d, GId p size cap startB off R l' X d ∧ X.size = d.h.out.size - off
   | .err e => GoodErr (K R) e R.status
 
-def LoopPost (p : Props) (size : Option Nat) (cap : Nat) (R : SegRes) (len : Nat) (D0 : ByteArray)
+def LoopPost (p : Props) (size : Option Nat) (cap startB off : Nat) (R : SegRes) (n0 len : Nat) (D0 : ByteArray)
     (x : LSt × ByteArray × RStat) : Prop :=
-  x.2.1.size ≤ len ∧ (x.2.2 = .ok → x.2.1.size = len) ∧ Pre R (D0 ++ x.2.1) ∧
-  StatPost p size cap R x.1 (D0 ++ x.2.1) x.2.2
+  x.2.1.size ≤ len ∧ (x.2.2 = .ok → x.2.1.size = len) ∧ Pre off R (D0 ++ x.2.1) ∧
+  StatPost p size cap startB off R n0 x.1 (D0 ++ x.2.1) x.2.2
 
 /-- fuel the loop of `Read` needs from the state `l` with `acc` bytes copied -/
 def need (len : Nat) (l : LSt) (acc : ByteArray) : Nat :=
   if l.eos then (if l.dict.buf.buffered = 0 then 1 else 2)
   else (len - acc.size) + (if l.dict.buf.buffered = 0 then 3 else 2)
 
-theorem readLoop_spec (R : SegRes) (hcap : 274 ≤ cap) (len : Nat) (D0 : ByteArray) :
-    ∀ (fuel : Nat) (l : LSt) (acc : ByteArray), GI p size cap R l (D0 ++ acc) → acc.size < len →
-      need len l acc ≤ fuel → LoopPost p size cap R len D0 (readLoop len fuel l acc) := by
+theorem readLoop_spec (R : SegRes) (hcap : 274 ≤ cap) (n0 len : Nat) (D0 : ByteArray) :
+    ∀ (fuel : Nat) (l : LSt) (acc : ByteArray), GI p size cap startB off R l (D0 ++ acc) → acc.size < len →
+      l.rd.inp.length ≤ n0 →
+      need len l acc ≤ fuel → LoopPost p size cap startB off R n0 len D0 (readLoop len fuel l acc) := by
   intro fuel
   induction fuel with
   | zero =>
-    intro l acc hg hlt hn
+    intro l acc hg hlt hn0 hn
     exfalso
     unfold need at hn
     split_ifs at hn <;> omega
   | succ fuel ih =>
-    intro l acc hg hlt hn
+    intro l acc hg hlt hn0 hn
     rw [readLoop]
     obtain ⟨d, hs, hD, h1, h2⟩ := hg
-    have hrle := hs.rel.buf.rle
+    have hrle := hs.rle
     have hfit := hs.rel.buf.fit
-    simp only [length_toList, ByteArray.size_append] at hrle hfit
+    have hwl := hs.wlen
+    simp only [hwl, ByteArray.size_append] at hrle hfit
     have hbuf := buffered_eq _ _ _ hs.rel.buf
-    simp only [length_toList, ByteArray.size_append] at hbuf
-    obtain ⟨r1, r2⟩ := ddict_read l.dict _ cap hs.rel (len - acc.size)
-    simp only [length_toList, ByteArray.size_append] at r1 r2
+    simp only [hwl, ByteArray.size_append] at hbuf
+    obtain ⟨r1, r2⟩ := relB_read l.dict _ cap _ hs.rel (len - acc.size)
+    simp only [hwl, ByteArray.size_append] at r1 r2
     rcases hrd : l.dict.read (len - acc.size) with ⟨d', chunk⟩
     rw [hrd] at r1 r2
     simp only at r1 r2 ⊢
     -- the chunk handed out
-    have hcs : chunk.size = min (len - acc.size) (d.h.out.size - (D0.size + acc.size)) := by
-      rw [← length_toList, r1, List.length_take, List.length_drop, length_toList]
+    have hcs : chunk.size = min (len - acc.size) (d.h.out.size - off - (D0.size + acc.size)) := by
+      rw [← length_toList, r1, List.length_take, List.length_drop, hwl]
     have hsize' : (D0 ++ (acc ++ chunk)).size = D0.size + acc.size + chunk.size := by
       simp only [ByteArray.size_append]; omega
-    have hD' : (D0 ++ (acc ++ chunk)).data.toList = d.h.out.data.toList.take (D0 ++ (acc ++ chunk)).size := by
+    have hD' : (D0 ++ (acc ++ chunk)).data.toList =
+        (d.h.out.data.toList.drop off).take (D0 ++ (acc ++ chunk)).size := by
       rw [hsize', ← ByteArray.append_assoc, ByteArray.data_append, Array.toList_append, hD, r1,
         ByteArray.size_append]
       conv_rhs => rw [List.take_add]
       congr 1
-      rw [List.take_eq_take_iff, List.length_drop, length_toList, hcs]
+      rw [List.take_eq_take_iff, List.length_drop, hwl, hcs]
       omega
-    have hs1 : Sim p size cap ({ l with dict := d' } : LSt) d (D0 ++ (acc ++ chunk)).size := by
-      refine ⟨hs.s, hs.tbl, hs.rd, hs.p, hs.start, hs.size, ?_, hs.ds, hs.cap⟩
+    have hs1 : Sim p size cap startB off ({ l with dict := d' } : LSt) d (D0 ++ (acc ++ chunk)).size := by
+      refine ⟨hs.s, hs.tbl, hs.rd, hs.p, hs.start, hs.size, hs.offle, hs.dsle, ?_, hs.cap⟩
       rw [hsize', hcs]; exact r2
-    have hg1 : GI p size cap R ({ l with dict := d' } : LSt) (D0 ++ (acc ++ chunk)) :=
-      ⟨d, hs1, hD', h1, h2⟩
-    have hbuf1 : d'.buf.buffered = d.h.out.size - (D0.size + acc.size + chunk.size) := by
+    have hgd1 : GId p size cap startB off R ({ l with dict := d' } : LSt) (D0 ++ (acc ++ chunk)) d :=
+      ⟨hs1, hD', h1, h2⟩
+    have hg1 : GI p size cap startB off R ({ l with dict := d' } : LSt) (D0 ++ (acc ++ chunk)) := ⟨d, hgd1⟩
+    have hbuf1 : d'.buf.buffered = d.h.out.size - off - (D0.size + acc.size + chunk.size) := by
       have := buffered_eq _ _ _ hs1.rel.buf
-      simp only [length_toList, hsize'] at this
+      simp only [hwl, hsize'] at this
       exact this
     have hsz2 : (acc ++ chunk).size = acc.size + chunk.size := ByteArray.size_append
     by_cases c1 : chunk.size = 0 ∧ l.eos = true
     · rw [if_pos c1]
-      have hgA : GI p size cap R l (D0 ++ acc) := ⟨d, hs, hD, h1, h2⟩
+      have hgA : GI p size cap startB off R l (D0 ++ acc) := ⟨d, hs, hD, h1, h2⟩
+      have hce : chunk.data.toList = [] := List.eq_nil_of_length_eq_zero (by rw [length_toList]; exact c1.1)
       simp only [LoopPost]
       refine ⟨Nat.le_of_lt hlt, (fun h => by cases h), hgA.pre, ?_⟩
       simp only [StatPost]
-      intro hK
-      obtain ⟨e1, e2⟩ := h2 c1.2 hK
-      refine ⟨e1, ?_⟩
-      rw [hD, e2, List.take_of_length_le]
-      rw [length_toList, ByteArray.size_append]
-      have := c1.1
-      omega
+      refine ⟨hn0, c1.2, d, hgd1.congr ?_, ?_⟩
+      · simp only [ByteArray.data_append, Array.toList_append, hce, List.append_nil]
+      · rw [ByteArray.size_append]
+        have := c1.1
+        omega
     rw [if_neg c1]
     by_cases c2 : (acc ++ chunk).size ≥ len
     · rw [if_pos c2]
       simp only [LoopPost]
-      exact ⟨by omega, fun _ => by omega, hg1.pre, hg1⟩
+      exact ⟨by omega, fun _ => by omega, hg1.pre, hn0, hg1⟩
     rw [if_neg c2]
     by_cases hE : l.eos = true
     · have hdc : decompress ({ l with dict := d' } : LSt) = .eof ({ l with dict := d' } : LSt) := by
         rw [decompress, if_pos hE]
       rw [hdc]
       simp only
-      apply ih _ _ hg1 (by omega)
+      apply ih _ _ hg1 (by omega) hn0
       unfold need at hn ⊢
       rw [if_pos hE] at hn
       simp only
@@ -936,9 +1078,9 @@ theorem readLoop_spec (R : SegRes) (hcap : 274 ≤ cap) (len : Nat) (D0 : ByteAr
         exact ⟨by omega, (fun h => by cases h), hg1.pre, hdp⟩
       | more l' =>
         rw [hres] at hdp
-        obtain ⟨a1, a2, a3⟩ := hdp
+        obtain ⟨a1, a0, a2, a3⟩ := hdp
         simp only
-        apply ih l' _ a3 (by omega)
+        apply ih l' _ a3 (by omega) (Nat.le_trans a0 hn0)
         obtain ⟨d2, s2, _, _, _⟩ := a3
         have hb2 := buffered_eq _ _ _ s2.rel.buf
         have ha2 := available_eq _ _ _ s2.rel.buf
@@ -948,31 +1090,39 @@ theorem readLoop_spec (R : SegRes) (hcap : 274 ≤ cap) (len : Nat) (D0 : ByteAr
         split_ifs at hn <;> omega
       | eof l' =>
         rw [hres] at hdp
-        obtain ⟨a1, a3⟩ := hdp
+        obtain ⟨a1, a0, a3⟩ := hdp
         simp only
-        apply ih l' _ a3 (by omega)
+        apply ih l' _ a3 (by omega) (Nat.le_trans a0 hn0)
         unfold need
         rw [a1, if_pos rfl]
         split_ifs at hn ⊢ <;> omega
 
-theorem read_spec (R : SegRes) (hcap : 274 ≤ cap) {l : LSt} {D : ByteArray} (hg : GI p size cap R l D) (len : Nat) :
-    LoopPost p size cap R len D (read l len) := by
+theorem read_spec (R : SegRes) (hcap : 274 ≤ cap) {l : LSt} {D : ByteArray} (hg : GI p size cap startB off R l D)
+    (len : Nat) (hlen : 0 < len) :
+    LoopPost p size cap startB off R l.rd.inp.length len D (read l len) := by
   unfold read
   have he : D ++ ByteArray.empty = D := ByteArray.append_empty
+  rw [if_neg (by omega)]
+  apply readLoop_spec R hcap _ len D _ _ _ (by rw [he]; exact hg)
+  · show 0 < len; omega
+  · exact Nat.le_refl _
+  · unfold need
+    have : ByteArray.empty.size = 0 := rfl
+    split_ifs <;> omega
+
+theorem read_spec' (R : SegRes) (hcap : 274 ≤ cap) {l : LSt} {D : ByteArray} (hg : GI p size cap startB off R l D)
+    (len : Nat) : LoopPost p size cap startB off R l.rd.inp.length len D (read l len) := by
   by_cases h0 : len = 0
-  · rw [if_pos h0]
+  · have he : D ++ ByteArray.empty = D := ByteArray.append_empty
+    unfold read
+    rw [if_pos h0]
     simp only [LoopPost, he]
-    exact ⟨by rw [h0]; exact Nat.le_refl _, fun _ => by rw [h0]; rfl, hg.pre, hg⟩
-  · rw [if_neg h0]
-    apply readLoop_spec R hcap len D _ _ _ (by rw [he]; exact hg)
-    · show 0 < len; omega
-    · unfold need
-      have : ByteArray.empty.size = 0 := rfl
-      split_ifs <;> omega
+    exact ⟨by rw [h0]; exact Nat.le_refl _, fun _ => by rw [h0]; rfl, hg.pre, Nat.le_refl _, hg⟩
+  · exact read_spec R hcap hg len (by omega)
 
 /-- the state a successful `NewReader` returns is in step with the start of the batch run -/
 theorem newReader_init (cfgCap : Nat) (inp : ByteArray) (l : LSt) (h : newReader cfgCap inp = .ok l) :
-    ∃ (p : Props) (size : Option Nat) (cap : Nat) (R : SegRes), 274 ≤ cap ∧ GI p size cap R l ByteArray.empty ∧
+    ∃ (p : Props) (size : Option Nat) (cap : Nat) (R : SegRes), 274 ≤ cap ∧ GI p size cap 0 0 R l ByteArray.empty ∧
       (Lzma1.read (if cfgCap = 0 then 8 * 1024 * 1024 else cfgCap) inp).out = R.d.h.out ∧
       (Lzma1.read (if cfgCap = 0 then 8 * 1024 * 1024 else cfgCap) inp).status = R.status := by
   unfold newReader at h
@@ -1004,10 +1154,10 @@ theorem newReader_init (cfgCap : Nat) (inp : ByteArray) (l : LSt) (h : newReader
           (max (Lzma1.le inp 1 4) Lzma1.minDictCap) = cap at hc ⊢
       refine ⟨p, size, cap, _, hc, ?_, rfl, rfl⟩
       refine ⟨{ s := {}, tbl := initTable p.lc p.lp, rd := rd, h := { out := ByteArray.empty, dictStart := 0, cap := cap } },
-        ⟨rfl, rfl, rfl, rfl, rfl, rfl, ⟨new_rel cap, rfl, by omega⟩, rfl, rfl⟩, rfl, ?_, ?_⟩
+        ⟨rfl, rfl, rfl, rfl, rfl, rfl, Nat.le_refl _, Nat.le_refl _, ⟨new_rel cap, rfl, by omega⟩, rfl⟩, rfl, ?_, ?_⟩
       · intro _
         refine ⟨fun _ => ⟨_, rfl⟩, fun sz hsz => ?_⟩
-        show 0 < sz ∨ sz = 0 ∧ 0 = 0
+        show 0 - 0 < sz ∨ sz = 0 ∧ 0 - 0 = 0
         omega
       · intro hf; cases hf
 
